@@ -59,6 +59,15 @@ CHECKS = {
              "under ASan and under a 1 MiB stack in the g++ -O2 build.",
         note="trusts the C++ structural comparison (common/json_equiv.hpp) and ASan; non-finite numbers excluded and counted",
         design="4/C18"),
+    "C19": dict(
+        engine="hypothesis-runner",
+        category="exploration",
+        technique="differential property testing (eval_file vs eval of the same bytes on a twin engine) and model-based histories of use()/eval_file() over generated file layouts",
+        text="Generated file contents of every length (BOM, partial BOM, CRLF, shebang, NULs) are written to disk and eval_file (C++ and script) is "
+             "compared with eval of the bytes; use()/eval_file() histories over files in several use paths are compared with a set-of-used-paths model "
+             "(evaluation trace, exception class, name carried by file_not_found_error).",
+        note="the use() model is mine (documented first-hit search, once per resolved path); real files under /verif/.build/work",
+        design="4/C19"),
 }
 
 PENDING_REASON = "check not built yet in this round (planned, see DESIGN.md section 4); not claimed until its machinery exists and is calibrated"
